@@ -510,9 +510,130 @@ def enum_rbd(shard, nshards, tier):
                         k += 1
 
 
+
+# ---------------------------------------------------------------------------------------------------------
+# SolveExp1 on general first-order systems  yd - A y = f  (A need not come from a second-order system)
+FO_KINDS = ["dense", "dense", "upper", "upper", "lower", "diag", "scalar", "jordan", "cascade", "zero"]
+
+
+def _fo_matrix(case):
+    rng = util.rng_of(case["seed"])
+    n, kind = case["n"], case["kind"]
+    if kind == "scalar":
+        n = 1
+    if kind in ("dense", "scalar"):
+        A = rng.standard_normal((n, n))
+    elif kind == "upper":
+        A = np.triu(rng.standard_normal((n, n)))
+    elif kind == "lower":
+        A = np.tril(rng.standard_normal((n, n)))
+    elif kind == "diag":
+        A = np.diag(rng.standard_normal(n))
+    elif kind == "jordan":
+        A = float(rng.choice([0.0, -1.0, -0.3])) * np.eye(n) + np.diag(np.ones(n - 1), 1)
+    elif kind == "cascade":       # chain of first-order lags feeding each other (bidiagonal, upper)
+        A = -np.diag(rng.uniform(0.2, 3.0, n)) + np.diag(rng.uniform(0.2, 3.0, n - 1), 1)
+    else:
+        A = np.zeros((n, n))
+    h = case["h"]
+    nrm = np.linalg.norm(A, 1)
+    if nrm > 0:
+        A = A * (case["norm"] / (nrm * h))
+        mx = np.linalg.eigvals(A).real.max() * h          # growth per step at most e^0.25
+        if mx > 0.25:
+            A = A - ((mx - 0.25) / h) * np.eye(n)
+    return A, h
+
+
+def oracle_first_order(case, R):
+    from pyyeti import ode
+    from refs import expm_ref
+    A, h = _fo_matrix(case)
+    n = A.shape[0]
+    order, nt = case["order"], case["nt"]
+    rng = util.rng_of(case["seed"] + 5)
+    F = rng.integers(-4, 5, (n, nt)).astype(float) * (1.0 if case["fint"] else rng.uniform(0.1, 2.0))
+    if case["zero_force"]:
+        F[:] = 0.0
+    y0 = rng.standard_normal(n) if case["y0"] else None
+    nrmAh = np.linalg.norm(A * h, 1)
+    tri = "upper" if np.array_equal(A, np.triu(A)) else ("lower" if np.array_equal(A, np.tril(A)) else "full")
+    R.label(f"kind={case['kind']}", f"order={order}", "tri=" + tri, "pade_side" if nrmAh <= 2.0978 else "getEPQ2_side",
+            "y0" if case["y0"] else "y0=None", f"n={n}")
+    R.nontrivial(np.any(F) and np.any(A))
+    E, I1, I2 = expm_ref.expm_integrals(A, h)
+    try:
+        kexp = float(la.expm_cond(A * h)) if np.any(A) else 1.0
+    except Exception:
+        kexp = 1.0
+    if not np.isfinite(kexp):
+        kexp = 1.0
+    kap = max(1.0 + nrmAh, kexp)
+    if order == 1:
+        P, Q = I2 / h, I1 - I2 / h
+    else:
+        P, Q = I1, np.zeros_like(I1)
+    sE = max(np.abs(E).max(), 1.0)
+    sP = max(np.abs(P).max() + np.abs(Q).max(), h)
+    nE = np.abs(E).sum(axis=1).max()
+    delta = 50.0 * EPS * kap        # calibrated: worst measured error/(eps*kappa*scale) on the unchanged tree < 1
+    yref = np.zeros((n, nt))
+    bound = np.zeros(nt)
+    if y0 is not None:
+        yref[:, 0] = y0
+    for j in range(1, nt):
+        yref[:, j] = E @ yref[:, j - 1] + P @ F[:, j - 1] + Q @ F[:, j]
+        bound[j] = nE * bound[j - 1] + delta * (sE * np.abs(yref[:, j - 1]).sum()
+                                                + sP * (np.abs(F[:, j - 1]).sum() + np.abs(F[:, j]).sum()))
+    Acall, lab_ = util.repack(A, case.get("apack", "same"))
+    R.label("A:" + lab_)
+    ts = ode.SolveExp1(Acall, h, order=order)
+    Fcall, flab = util.repack(F, case.get("fpack", "same"))
+    sol = ts.tsolve(Fcall, y0)
+    R.check(np.array_equal(np.asarray(Fcall, float), F), "SolveExp1_modifies_force")
+    R.check(np.array_equal(np.asarray(Acall, float), A), "SolveExp1_modifies_A")
+    d = np.asarray(sol.d)
+    if d.shape != yref.shape:
+        R.fail("SolveExp1_general_shape", f"{d.shape} vs {yref.shape}")
+        return
+    info = f"kind={case['kind']} tri={tri} n={n} order={order} ||Ah||1={nrmAh:.3g} h={h:.3g} nt={nt}"
+    floor = 16 * EPS * max(np.abs(yref).max(), 1e-300)
+    err = np.abs(d - yref).max(axis=0)
+    worst = float((err / (bound + floor)).max())
+    R.metric("SolveExp1_general_d/tol", worst)
+    if worst > 1:
+        j = int(np.argmax(err / (bound + floor)))
+        R.fail("SolveExp1_general_d", f"{info} step {j}: err={err[j]:.3e} tol={bound[j] + floor:.3e}")
+    # v is the derivative: yd = A y + f
+    vref = A @ yref + F
+    nA = np.abs(A).sum(axis=1).max()
+    tolv = nA * (bound + floor) + 16 * EPS * np.maximum(np.abs(A) @ np.abs(yref) + np.abs(F), 1e-300).max(axis=0)
+    errv = np.abs(np.asarray(sol.v) - vref).max(axis=0)
+    wv = float((errv / tolv).max())
+    R.metric("SolveExp1_general_v/tol", wv)
+    R.check(wv <= 1, "SolveExp1_general_v", f"{info}: worst err/tol={wv:.3g}")
+    R.check(np.array_equal(np.asarray(sol.t), h * np.arange(nt)) and sol.h == h, "SolveExp1_general_t")
+    # a second solve with the same object gives the same answer
+    again = ts.tsolve(Fcall, y0)
+    R.check(np.array_equal(again.d, sol.d) and np.array_equal(again.v, sol.v), "SolveExp1_second_solve_differs")
+
+
+@st.composite
+def first_order_cases(draw):
+    kind = draw(st.sampled_from(FO_KINDS))
+    return {"kind": kind, "n": draw(st.integers(2, 5)), "seed": draw(st.integers(0, 2 ** 31)),
+            "h": draw(st.sampled_from([1.0, 0.5, 0.01, 1e-3, 7.0])),
+            "norm": draw(st.sampled_from([0.01, 0.2, 0.9, 1.5, 2.0, 2.2, 4.0, 9.0])),
+            "order": draw(st.sampled_from([0, 1])), "nt": draw(st.integers(1, 14)),
+            "fint": draw(st.booleans()), "zero_force": draw(st.integers(0, 9)) == 0,
+            "y0": draw(st.booleans()), "apack": draw(st.sampled_from(["same", "same", "fortran", "strided", "readonly"])),
+            "fpack": draw(st.sampled_from(["same", "same", "int", "list", "fortran", "strided", "readonly"]))}
+
+
 PARTS = [
     Part("rbd_grid", oracle, enum=enum_rbd, quick=(4, None), thorough=(4, None), exhaustive=True),
     Part("diag", oracle, strategy=lambda: cases("diag"), quick=(8, 120), thorough=(16, 2500)),
     Part("nonprop", oracle, strategy=lambda: cases("nonprop"), quick=(8, 80), thorough=(16, 1000)),
     Part("physical", oracle, strategy=lambda: cases("physical"), quick=(8, 80), thorough=(16, 1000)),
+    Part("first_order", oracle_first_order, strategy=first_order_cases, quick=(4, 100), thorough=(16, 1500)),
 ]
